@@ -81,11 +81,16 @@ def _ubsan_kind(msg):
     return "other"
 
 
+def _repo_root():
+    from . import build
+    return build.REPO.rstrip("/") + "/"
+
+
 def _first_repo_frame(text):
     """function name of the first stack frame located in the repository (stable across line edits)."""
     for m in re.finditer(r"#\d+ 0x[0-9a-f]+ in (.+?) (/\S+?):(\d+)", text):
         fn, path = m.group(1), m.group(2)
-        if "/repo/" in path or path.startswith("/repo"):
+        if "/repo/" in path or path.startswith("/repo") or path.startswith(_repo_root()):
             base = re.sub(r"\(.*", "", fn).strip()
             return base.split("::")[-1] if base else os.path.basename(path)
     return None
